@@ -102,6 +102,7 @@ def parse_dump(line):
 class C13(Spec):
     pid = 'C13'
     component = 'slist'
+    extra_models = ('slistp',)
     driver = 'slist'
     lib_srcs = ['slist.c']
     header_words = ('keys', 'nlists', 'cmpmode')
